@@ -18,6 +18,7 @@ from simftp import corpus, scenario
 from simftp.world import SESSION
 
 PROP = "C12"
+NARROW = {"capacity": 7, "high_water": 8, "seg_mode": "random", "seg_max": 7}
 CUTS = ("vanish_rst", "vanish_fin", "ctl_rst", "ctl_fin", "data_rst", "server_close")
 
 
@@ -254,6 +255,10 @@ def main(argv=None):
     with common.Pool() as pool:
         # swarm: every (script, seed) pair gets its own network / backend configuration
         pilots = [{"script": n, "seed": s * 100 + i, "want_sample": (i == 0)} for s in seeds for i, n in enumerate(names)]
+        # the scripts that end with QUIT once more over a narrow control pipe (the 221 does not fit
+        # into one segment, so the reply writer is blocked in its write when the cut arrives)
+        S0 = {**corpus.scripts(), **corpus.extra_scripts()}
+        pilots += [{"script": n, "seed": s * 100 + i, "net": dict(NARROW)} for s in seeds for i, n in enumerate(names) if S0[n][-1][0] == "quit"]
         plan = []
         npilot_events = {}
         for case, res in pool.map(run_case, pilots, chunksize=1):
@@ -261,10 +266,15 @@ def main(argv=None):
             for v in res["violations"]:
                 rep.add(case, v)
             N = res["n_events_s0"]
-            npilot_events[(case["script"], case["seed"])] = N
+            npilot_events[(case["script"], case["seed"], bool(case.get("net")))] = N
             for cut in CUTS:
                 for k in range(1, N + 1):
-                    plan.append({"script": case["script"], "seed": case["seed"], "cut": cut, "k": k})
+                    c = {"script": case["script"], "seed": case["seed"], "cut": cut, "k": k}
+                    if case.get("net"):
+                        if k < N - 14 or cut not in ("vanish_rst", "ctl_rst", "ctl_fin"):
+                            continue  # the narrow variant is only about the QUIT window
+                        c["net"] = dict(case["net"])
+                    plan.append(c)
         # concurrency variants: the cut session runs next to two untouched ones
         import random
 
@@ -280,7 +290,7 @@ def main(argv=None):
         # position in the last events of the scripts that end with QUIT), where the server is
         # inside `await response_queue.join()` and no longer watches its tasks
         S = {**corpus.scripts(), **corpus.extra_scripts()}
-        focus = [c for c in plan if S[c["script"]][-1][0] == "quit" and c["cut"] in ("vanish_rst", "ctl_rst", "ctl_fin") and c["k"] >= npilot_events.get((c["script"], c["seed"]), 0) - 14]
+        focus = [c for c in plan if S[c["script"]][-1][0] == "quit" and c["cut"] in ("vanish_rst", "ctl_rst", "ctl_fin") and c["k"] >= npilot_events.get((c["script"], c["seed"], bool(c.get("net"))), 0) - 14]
         # and the download whose peer never reads: control-only cuts and shutdown at every event
         focus += [c for c in plan if c["script"] == "stalled_reader" and c["cut"] in ("ctl_rst", "ctl_fin", "server_close")]
         # step-granular sub-sweep: Server.close() at every event-loop step of the connect / greeting
